@@ -390,7 +390,7 @@ Proof.
     assert (Hes_small : N.of_nat (length (entries_of w (prefix s))) < 536870912).
     { rewrite entries_length. apply Hsm. }
     assert (Hes_lt : forall x, In x (entries_of w (prefix s)) -> x < two64).
-    { intros x Hx. apply entries_In in Hx. eapply bucket_lt; eauto. }
+    { intros x Hx. apply entries_In in Hx. exact (bucket_lt w (prefix s) x Hw Hx). }
     assert (Eo' : o = N.of_nat (length pre)) by lia.
     destruct (has_located ver hdr pre (entries_of w (prefix s)) post tab s o HND Ho Eo' Ho63 Hes_small Hes_lt)
       as (b & Hb & Hsound & Hcomplete).
